@@ -128,7 +128,7 @@ class _ExactLanguageSearch:
             )
             if parsed_item["date_obj"]:
                 substring = original[i].strip(" .,:()[]-'")
-                if substring:
+                if substring.strip():
                     parsed.append((parsed_item, is_relative))
                     substrings.append(substring)
                 continue
@@ -161,7 +161,7 @@ class _ExactLanguageSearch:
                 possible_parsed, possible_substrings
             )
             for k in range(len(parsed_best)):
-                if parsed_best[k][0]["date_obj"] and substrings_best[k]:
+                if parsed_best[k][0]["date_obj"] and substrings_best[k].strip():
                     parsed.append(parsed_best[k])
                     substrings.append(substrings_best[k])
         return parsed, substrings
